@@ -1,6 +1,7 @@
 (* C17 — property theorems only: statement, `exact <lemma>`, Print Assumptions. *)
 From GL Require Import Common.Bytes Dbg.Lines Dbg.LinesFacts Dbg.Layout Dbg.LayoutFacts
-  Dbg.Scope Dbg.ScopeFacts Dbg.DbgLocals Dbg.DbgLocalsFacts.
+  Dbg.Scope Dbg.ScopeFacts Dbg.DbgLocals Dbg.DbgLocalsFacts Dbg.ScanLines.
+From GL Require Front.Lexer.
 
 (* The line of a token of a rendered program, in closed form: 1 + the newline sequences of the
    separators up to and including its own + those inside the tokens before it. *)
@@ -64,6 +65,41 @@ Theorem span_lines_reference : forall bs spans,
   map (fun s => (line_of_offset bs (fst s), line_of_offset bs (fst s + snd s))) spans.
 Proof. exact span_lines_correct. Qed.
 Print Assumptions span_lines_reference.
+
+(* ---- the scanner (transcription Front/Lexer.v of parse/lexer.go, tied to the code by C08) ---- *)
+
+(* every token the scanner delivers is stamped with the reference line of the offset of its first
+   byte - whatever it skipped on the way: blanks, line ends of any convention, line comments of
+   any text (openers cut short such as "--[==" included), long comments, and whatever line ends
+   the earlier tokens (long strings, escaped line ends) contain *)
+Theorem scanner_lines_reference : forall bs toks,
+  is_bytes bs = true -> Lexer.lex bs = Lexer.LexOk toks ->
+  Forall (fun t => Lexer.tk_line t = line_of_offset bs (Lexer.tk_off t)) toks.
+Proof. exact scanner_lines_reference_lemma. Qed.
+Print Assumptions scanner_lines_reference.
+
+(* for a rendered program that the scanner reads back token for token (scans_to), the scanner's
+   line of token j is the layout model's tok_line *)
+Theorem scanner_line_is_tok_line : forall toks lay ts j,
+  is_bytes (render toks lay) = true -> scans_to toks lay ts -> (j < List.length toks)%nat ->
+  tline ts j = tok_line toks lay j.
+Proof. exact scanner_line_is_tok_line_lemma. Qed.
+Print Assumptions scanner_line_is_tok_line.
+
+(* "re-indenting, adding comments or blank lines shifts the reported numbers by exactly the shift
+   of the tokens", at the level of the scanner: if the separator before token i gains k newline
+   sequences (and both texts scan to the program's tokens) the scanner's line of every token
+   from i on grows by exactly k and no other line changes *)
+Theorem scanner_layout_shift : forall toks lay lay' i k ts ts' j,
+  Forall tok_ok toks -> List.length lay = List.length toks ->
+  same_except lay lay' i -> (i < List.length toks)%nat ->
+  nl_count (nth i lay' []) = nl_count (nth i lay []) + k ->
+  is_bytes (render toks lay) = true -> is_bytes (render toks lay') = true ->
+  scans_to toks lay ts -> scans_to toks lay' ts' ->
+  (j < List.length toks)%nat ->
+  tline ts' j = tline ts j + (if (i <=? j)%nat then k else 0).
+Proof. exact scanner_layout_shift_lemma. Qed.
+Print Assumptions scanner_layout_shift.
 
 (* ---- which line may be reported ---- *)
 
